@@ -12,6 +12,7 @@ Two parts, of very different strength:
 import json
 import os
 import re
+import subprocess
 
 from . import lib
 
@@ -19,7 +20,7 @@ META = {
     'level': 'other',
     'technique': 'Lean 4 totality theorems for the modelled parsers (+ engine-level confinement theorems, hooked in) '
                  'AND, as search support only, a seeded fixture-mutation fuzz loop over all 58 built-in filesystem extractors '
-                 'run in-process under recover + 10 s watchdog + 512 MiB heap bound',
+                 'run in-process under recover + 20 s watchdog + 512 MiB heap bound',
     'design_ref': 'DESIGN.md §5 C02',
     'text': 'PARTIAL. Proved: the Lean models of the apk, gradle.lockfile, Gemfile.lock, dpkg, requirements.txt and package-lock parsers '
             '(the C03 models) are total functions — they return a value on every byte string, so a model/implementation agreement can only '
@@ -31,8 +32,8 @@ META = {
             'whole-document null/[]/{}/""/0, 10 000-deep nesting in JSON/XML/YAML/TOML, 1e99999 / 400-digit numbers, 70 000-byte lines, NUL, '
             'invalid UTF-8, empty, random bytes; for the zip-reading extractors also MEMBER-LEVEL mutations: valid archives whose metadata members are empty / '
             'truncated / stripped of their name or version headers / deflate-corrupted). Every (inventory, error) that Extract returns is then handed to the REAL '
-            'filesystem.Run (one root, that file, that extractor) so that the engine\'s own consumption path runs on it. A recovered panic, a process-fatal runtime error, an Extract that has not returned 2 s after its '
-            '10 s context deadline, or more than 512 MiB of heap in use is reported as VIOLATION with a self-contained replayable case line.',
+            'filesystem.Run (one root, that file, that extractor) so that the engine\'s own consumption path runs on it. A recovered panic, a process-fatal runtime error, an Extract that has not returned 4 s after its '
+            '20 s context deadline, or more than 512 MiB of heap in use is reported as VIOLATION with a self-contained replayable case line.',
     'note': 'The fuzz loop is SEARCH SUPPORT, NOT PROOF (evidence: coverage.unproved_support): absence of a finding is no guarantee. '
             '"Bounded time/memory" is a watchdog observation, never a theorem. The proved part is totality of the modelled parsers (C03 models) '
             'and engine-level confinement. Trusted: Lean kernel; the Go harness (c02gen), its canonical-name table and its process model; '
@@ -56,7 +57,10 @@ VIOLATING = ('panic', 'hang', 'oom', 'fatal', 'engine-panic', 'engine-hang', 'en
 MUTATIONS = {'quick': 20, 'thorough': 300}       # seeded mutations per fixture (c02gen -n)
 MODELLED_N = {'quick': 150, 'thorough': 1500}    # c03gen -n: n/2 malformed inputs for each of the five line formats
 LINE_FORMATS = ('apk', 'gradle', 'gemfile', 'dpkg', 'requirements')
-GEN_TIMEOUT = {'quick': 600, 'thorough': 1800}   # seconds, whole stream
+GEN_TIMEOUT = {'quick': 600, 'thorough': 1800}   # seconds, Python-side backstop for one c02gen invocation (never reached: see GEN_DEADLINE)
+GEN_DEADLINE = {'quick': 170, 'thorough': 1300}  # c02gen -deadline: after that many seconds it stops starting cases, abandons running ones (st=unrun) and PRINTS what it has
+EXT_BUDGET = {'quick': 240, 'thorough': 1500}    # c02gen -extbudget: cumulative wall seconds of cases per extractor
+MAX_HANGS = 3                                    # c02gen -maxhangs: hang breaker per (extractor, stack top)
 
 
 def _unhex(h):
@@ -128,6 +132,30 @@ def mutation_class(case):
     return 'explicit'
 
 
+def run_gen_partial(ctx, binary, args, timeout):
+    """like ctx.run_gen, but a generator that overruns `timeout` is killed and whatever it printed so far is still used.
+    returns (rows, ok, timed_out)"""
+    e = lib.goenv()
+    e['GOMEMLIMIT'] = '4GiB'
+    p = subprocess.Popen([binary] + args, stdout=subprocess.PIPE, stderr=subprocess.PIPE, text=True, env=e, errors='replace')
+    timed_out = False
+    try:
+        out, err = p.communicate(timeout=timeout)
+    except subprocess.TimeoutExpired:
+        timed_out = True
+        p.kill()
+        out, err = p.communicate()
+    rows = []
+    for l in (out or '').split('\n'):
+        if l:
+            c, _, r = l.partition('\t')
+            rows.append((c, r))
+    if timed_out or p.returncode != 0:
+        ctx.notes.append('generator %s %s: %s' % (os.path.basename(binary), 'killed after %d s' % timeout if timed_out else 'exited %d' % p.returncode, (err or '')[-800:]))
+        return rows, False, timed_out
+    return rows, True, False
+
+
 class _Judge:
     def __init__(self, ctx):
         self.ctx = ctx
@@ -137,6 +165,7 @@ class _Judge:
         self.bad = []
         self.not_required = 0
         self.regressions_ok = 0
+        self.unrun = {}      # extractor -> why -> cases the generator did not run (hang breaker / per-extractor budget / run deadline)
 
     def row(self, case, reply, origin):
         ctx = self.ctx
@@ -154,6 +183,10 @@ class _Judge:
             self.bad.append(case[:200] + ' -> ' + _unhex(f.get('msg')))
         elif st == 'skip':
             self.not_required += 1
+        elif st == 'unrun':
+            ext = (case.split(' ') + ['?', '?'])[1]
+            d = self.unrun.setdefault(ext, {})
+            d[f.get('why', '?')] = d.get(f.get('why', '?'), 0) + 1
         elif st in VIOLATING:
             key = finding_key(case, f)
             if not ctx.known_finding(key, describe(case, f)):
@@ -258,14 +291,14 @@ def stream(ctx):
             os.makedirs(lib.VERIF + '/evidence', exist_ok=True)
             with open(tmp, 'w') as fh:
                 fh.write('\n'.join(fuzz_lines) + '\n')
-            rows, ok = ctx.run_gen(binary, ['-replay', tmp], timeout=GEN_TIMEOUT[ctx.tier])
+            rows, ok, _ = run_gen_partial(ctx, binary, ['-replay', tmp, '-deadline', str(GEN_DEADLINE[ctx.tier])], GEN_TIMEOUT[ctx.tier])
             os.remove(tmp)
         for case, reply in rows:
             st = judge.row(case, reply, 'replay')
             print('replay: %s\t%s%s' % (case[:300] + ('…' if len(case) > 300 else ''), reply,
                                         ('   <- ' + describe(case, lib.fields(reply))) if st in VIOLATING else ''))
         if not ok:
-            ctx.violation('c02gen -replay failed: ' + '; '.join(ctx.notes[-1:]), ['# see notes'], found_input=False, name='gencrash-c02gen')
+            ctx.violation('HARNESS FAULT (not a finding about /repo): c02gen -replay failed: ' + '; '.join(ctx.notes[-1:]), ['# see notes'], found_input=False, name='harness-c02gen')
     else:
         corp = lib.corpus_lines(ctx.prop)
         if corp:
@@ -273,22 +306,25 @@ def stream(ctx):
             os.makedirs(lib.VERIF + '/evidence', exist_ok=True)
             with open(tmp, 'w') as fh:
                 fh.write('\n'.join(corp) + '\n')
-            rows, ok = ctx.run_gen(binary, ['-replay', tmp], timeout=GEN_TIMEOUT[ctx.tier])
+            rows, ok, _ = run_gen_partial(ctx, binary, ['-replay', tmp, '-deadline', str(GEN_DEADLINE['quick'])], GEN_TIMEOUT[ctx.tier])
             os.remove(tmp)
             for case, reply in rows:
                 judge.row(case, reply, 'corpus')
             if not ok or len(rows) != len(corp):
-                ctx.violation('c02gen could not replay the corpus (%d of %d lines answered): %s' % (len(rows), len(corp), '; '.join(ctx.notes[-1:])),
-                              ['# see notes'], found_input=False, name='gencrash-corpus')
-        rows, ok = ctx.run_gen(binary, ['-seed', str(ctx.seed), '-tier', ctx.tier, '-n', str(MUTATIONS[ctx.tier])], timeout=GEN_TIMEOUT[ctx.tier])
+                ctx.violation('HARNESS FAULT (not a finding about /repo): c02gen could not replay the corpus (%d of %d lines answered): %s' % (len(rows), len(corp), '; '.join(ctx.notes[-1:])),
+                              ['# see notes'], found_input=False, name='harness-corpus')
+        rows, ok, timed_out = run_gen_partial(ctx, binary, ['-seed', str(ctx.seed), '-tier', ctx.tier, '-n', str(MUTATIONS[ctx.tier]), '-deadline', str(GEN_DEADLINE[ctx.tier]),
+                                                             '-extbudget', str(EXT_BUDGET[ctx.tier]), '-maxhangs', str(MAX_HANGS)], GEN_TIMEOUT[ctx.tier])
         for case, reply in rows:
             if case == '#summary':
                 summary = json.loads(reply)
                 continue
             judge.row(case, reply, 'generated')
         if not ok or summary is None:
-            ctx.violation('c02gen failed (extractor count changed, a worker could not be resumed, or another harness fault): %s' % '; '.join(ctx.notes[-1:]),
-                          ['# see notes'], found_input=False, name='gencrash-c02gen')
+            # partial rows (if any) were judged above: findings among them are reported as findings; this line is about the harness only
+            ctx.violation('HARNESS FAULT (not a finding about /repo): c02gen %s; %d result row(s) were still judged: %s' % (
+                          'overran its Python-side backstop and was killed' if timed_out else 'failed (extractor count changed, a worker could not be resumed, or another internal error)',
+                          len(rows), '; '.join(ctx.notes[-1:])), ['# see notes'], found_input=False, name='harness-c02gen')
     judge.finish()
     # known findings whose witness no longer fails: say so (the entry should then be turned into a `fixed:` line)
     gone = sorted(k for k in ctx.known if k not in ctx.known_hits)
@@ -299,11 +335,17 @@ def stream(ctx):
         'testdata fixtures and on seeded mutations (%d per fixture in this tier) plus fixture-independent documents (null/[]/{}/""/0, deep nesting, huge '
         'numbers, long lines, NUL, invalid UTF-8, magic numbers of binary formats, random bytes), one fresh temp root per case, ScanInput built like '
         'filesystem.runExtractor does (FS=DirFS(root), Path, Root, Info from the opened file, Reader=the file). Violation = recovered panic | dead worker '
-        '(fatal runtime error) | Extract not back 2 s after its 10 s context deadline | more than 512 MiB of heap objects in use at a 2 ms sample (process under SetMemoryLimit(512 MiB)). '
+        '(fatal runtime error) | Extract not back 4 s after its 20 s context deadline | more than 512 MiB of heap objects in use at a 2 ms sample (process under SetMemoryLimit(512 MiB)). '
         'Member-level classes (zipmem, zipwrap, zipmeta:*) keep the archive valid and damage the metadata members of eggs / jars / wars (the only containers a built-in extractor reads; none reads tar). '
         'After a normal return the returned (inventory, error) pair is replayed through the real filesystem.Run (walk, FileRequired, runExtractor, Inventory.Append, status) — '
         'engine-panic / engine-hang / engine-err / nilpkg are violations too. '
         'Coverage is whatever the seeds and %d mutation classes reach; no claim is made about inputs not tried.' % (MUTATIONS[ctx.tier], 27))
+    ctx.extra['cases_not_run'] = judge.unrun   # extractor -> {hangs: skipped after repeated hangs, budget: per-extractor budget, deadline: run deadline}
+    nun = sum(sum(d.values()) for d in judge.unrun.values())
+    if nun:
+        ctx.notes.append('%d generated case(s) were NOT run: %s (hangs = remaining cases of an extractor after %d hangs at the same stack top; budget = per-extractor '
+                         'wall budget %d s; deadline = run deadline %d s). The hangs themselves are reported with their inputs.' % (
+                             nun, json.dumps(judge.unrun, sort_keys=True), MAX_HANGS, EXT_BUDGET[ctx.tier], GEN_DEADLINE[ctx.tier]))
     ctx.extra['deadline_cases'] = judge.deadline
     ctx.extra['cases_path_not_accepted'] = judge.not_required
     ctx.extra['regression_witnesses_ok'] = judge.regressions_ok
@@ -338,7 +380,7 @@ def run(ctx):
                        'dereferences is missing) is modelled, not verified — it is CHECKED on every case by replaying the returned (inventory, error) through the real filesystem.Run '
                        '(st=engine-panic | engine-hang | engine-err | nilpkg are violations)',
                        'PARTIAL: only the parsers modelled for C03 are proved total; for every other extractor panic-/hang-/memory-freedom is SEARCHED (fuzzing), not proved',
-                       '"bounded time and memory" = 10 s context deadline (+2 s grace) and 512 MiB heap in use per Extract call (2 ms sampler), observed by a watchdog; never a theorem',
+                       '"bounded time and memory" = 20 s context deadline (+4 s grace) and 512 MiB heap in use per Extract call (2 ms sampler), observed by a watchdog; never a theorem',
                        'java/pomxmlnet needs the network (Requirements().Network == NetworkOnline) and is outside the property ("extractors that can run offline")',
                        'FileRequired is probed with default extractor configuration; a path it rejects is outside the property (status skip)',
                        'extractors that read siblings (chrome _locales, go.sum, -r requirements, parent pom.xml, containerd snapshotter db) get the fixture\'s siblings; only the file under test is mutated']
